@@ -150,7 +150,8 @@ func c19Tuples() []c19Tuple {
 	}
 	targets := []string{"LA5NTA", "la5nta-5", "wl2k", "AB", "A", "", // "": the path ends in a slash - no target at all
 		"\u017fa", "\u0131\u017f"} // three bytes as written, two characters either way, two bytes upper-cased (SA, IS)
-	queries := []string{"", "host=ax0", "host=%2Fdev%2FttyS0", "bw=500", "a=1&a=2", "host=tnc%3A8000&freq=7.1"}
+	queries := []string{"", "host=ax0", "host=%2Fdev%2FttyS0", "bw=500", "a=1&a=2", "host=tnc%3A8000&freq=7.1",
+		"Freq=7050&bw=500", "Freq=1&freq=2", "Host=ax0"} // names are case-sensitive: only "host" replaces the host
 	var out []c19Tuple
 	for _, s := range schemes {
 		for _, u := range users {
